@@ -6,6 +6,7 @@ From Coq Require Import Strings.Byte.
 Require Import BS.Bytes BS.Common BS.Api BS.Layout BS.Format BS.FormatFacts BS.Spec BS.SpecStep.
 Require Import BS.FS BS.FSFacts BS.Meta BS.MetaFacts BS.Header BS.Reader BS.ReaderFacts BS.Index BS.Data BS.DataFacts BS.Seek BS.Series BS.SeriesFacts BS.ReadAllFacts BS.TotalFacts BS.CacheFacts BS.Sections BS.ExtractFacts BS.OpenFacts BS.TornGenFacts BS.CacheOpenFacts BS.CacheCreateFacts.
 Require Import BS.OverflowFacts.
+Require Import BS.World BS.Judge BS.JudgeFacts BS.CacheOpenFacts BS.JudgeCacheFacts.
 Import ListNotations.
 
 
@@ -120,3 +121,19 @@ Theorem C08_mean_between : forall (xs:list N) lo hi, xs <> [] -> Forall (fun x =
   (lo <= sum_N xs / N.of_nat (length xs) <= hi)%N.
 Proof. exact mean_between. Qed.
 Print Assumptions C08_mean_between.
+
+(* (I refines S, at the level of the public API, with cache levels) every session on a series created with ANY cache levels
+   (bucket sizes >= 1 in ascending order, pairwise different file names) - appends accepted or refused (every level follows),
+   full / bounded / first-n reads, RESAMPLING READS THROUGH THE LEVELS, counts, accessors, with any arguments - run on the model
+   of the library is ACCEPTED BY THE JUDGE at every step: the answer of a resampling read is the uniform bucket means of one of
+   the levels the judge admits, and after every step the files of the model - the data and index file of the series and of
+   EVERY level - are byte for byte the files the judge expects (each level: the bucket means of the source) *)
+Theorem C08_session_with_caches_accepted_by_judge : forall (name:list byte) (p:nat) (hdr:list byte) (Bs:list N),
+  (len (params_to_text BSgen.Consts.version (N.of_nat p) ++ hdr) <= 65535)%N ->
+  Forall (fun B => (1 <= B)%N /\ (len (config_header name B) <= 65535)%N) Bs ->
+  NoDup ([name ++ ext_data; name ++ ext_index] ++ flat_map (cache_names name) Bs) ->
+  StronglySorted le (map fst (map (open_spec name) Bs)) ->
+  forall cb ops, Forall sess_op ops ->
+  accepted World.init_world judge_init (ONew name (N.of_nat p) hdr Bs cb :: ops).
+Proof. exact session_accepted_caches. Qed.
+Print Assumptions C08_session_with_caches_accepted_by_judge.
